@@ -2,7 +2,7 @@
    dispatch takes one command line (bytes) and returns one result line (bytes); the
    OCaml driver only converts between OCaml strings and byte lists. *)
 From Coq Require Import String.
-From MdIt Require Import Prims Tables Mdurl SourceMap Ruler Escape NormRef Indent HtmlRe Tree Render Core Dump.
+From MdIt Require Import Prims Tables Mdurl SourceMap Ruler Escape NormRef Indent HtmlRe ErasedSet Tree Render Core Dump.
 Local Open Scope string_scope.
 Local Open Scope list_scope.
 Local Open Scope N_scope.
@@ -113,6 +113,91 @@ Definition cmd_hist (a : list str) : str :=
   | _ => bs "error args"
   end.
 
+(* eset <script> *)
+Definition show_val (t v : N) : str := if t <? 2 then bs "z" else dec v.
+Definition show_opt (t : N) (o : option N) : str := match o with Some v => show_val t v | None => bs "-" end.
+
+Definition eset_op (st : res (eset * list str)) (op : str) : res (eset * list str) :=
+  do x <- st;
+  let '(s, out) := x in
+  match op with
+  | c :: rest =>
+    let parts := split 44 rest in
+    let t := match parts with a :: _ => num a | [] => 0 end in
+    let v := match parts with _ :: b :: _ => num b | _ => 0 end in
+    if c =? 105 then do r <- es_insert s t v; ret (fst r, out ++ [show_opt t (snd r)])
+    else if c =? 103 then ret (s, out ++ [show_opt t (es_get s t)])
+    else if c =? 109 then
+      (if t <? 2 then ret (s, out ++ [show_opt t (es_get s t)])
+       else let '(s', old) := es_set s t v in ret (s', out ++ [show_opt t old]))
+    else if c =? 111 then do r <- es_get_or_insert s t v; ret (fst r, out ++ [show_val t (snd r)])
+    else if c =? 100 then do r <- es_get_or_insert s t 0; ret (fst r, out ++ [show_val t (snd r)])
+    else if c =? 114 then do r <- es_remove s t; ret (fst r, out ++ [show_opt t (snd r)])
+    else if c =? 104 then ret (s, out ++ [b01 (es_contains s t)])
+    else if c =? 99 then ret (es_clear s, out ++ [bs "c"])
+    else if c =? 108 then ret (s, out ++ [dec (es_len s) ++ (if es_is_empty s then bs "e" else bs "n")])
+    else ret x
+  | [] => ret x
+  end.
+
+Definition cmd_eset (a : list str) : str :=
+  match a with
+  | [script] =>
+    match fold_left eset_op (split 59 script) (ret (es_new, [])) with
+    | inr x => bs "ok " ++ join (bs ";") (snd x)
+    | inl e => bs "panic " ++ err_name e
+    end
+  | _ => bs "error args"
+  end.
+
+(* walk <shape> *)
+Fixpoint build_shape (fuel : nat) (s : str) (counter : N) : option (node * str * N) :=
+  match fuel with
+  | O => None
+  | S f =>
+    match s with
+    | 40 :: t =>
+      let id := counter in
+      let fix kids (n : nat) (s : str) (c : N) (acc : list node) : option (list node * str * N) :=
+          match n with
+          | O => None
+          | S n' =>
+            match s with
+            | 40 :: _ => match build_shape f s c with
+                         | Some (k, s', c') => kids n' s' c' (acc ++ [k])
+                         | None => None
+                         end
+            | 41 :: t' => Some (acc, t', c)
+            | _ => None
+            end
+          end in
+      match kids (S (length t)) t (counter + 1) [] with
+      | Some (cs, rest, c') =>
+        Some (Node (KText (dec id)) (Some (SAbs id, SAbs (id + 1))) [(bs "id", dec id)] [] cs, rest, c')
+      | None => None
+      end
+    | _ => None
+    end
+  end.
+
+Definition text_of_node (n : node) : str := match n_kind n with KText c => c | _ => [] end.
+
+Definition cmd_walk (a : list str) : str :=
+  match a with
+  | [shape] =>
+    match build_shape (S (length shape)) shape 0 with
+    | Some (root, _, _) =>
+      let seq_txt := join (bs ",") (map (fun p : node * N => text_of_node (fst p) ++ bs "/" ++ dec (snd p)) (walk root 0)) in
+      let root' := walk_mut (fun n d => if d mod 2 =? 1 then replace n (KEm 42) else n) root 0 in
+      bs "ok w=" ++ seq_txt ++ bs " m=" ++ seq_txt ++ bs " t=" ++ dump_tree [0] root'
+    | None => bs "error shape"
+    end
+  | _ => bs "error args"
+  end.
+
+(* signed decimal *)
+Definition znum (s : str) : Z := match s with 45 :: t => (- Z.of_N (num t))%Z | _ => Z.of_N (num s) end.
+
 Definition dispatch (line : str) : str :=
   match split 32 line with
   | cmd :: a =>
@@ -126,6 +211,14 @@ Definition dispatch (line : str) : str :=
       end
     else if list_eqb cmd (bs "ruler") then cmd_ruler a
     else if list_eqb cmd (bs "parse") then cmd_parse a
+    else if list_eqb cmd (bs "eset") then cmd_eset a
+    else if list_eqb cmd (bs "walk") then cmd_walk a
+    else if list_eqb cmd (bs "cutws") then
+      match a with
+      | [s; n] => let src := arg_hex s in
+                  let '(sp, st) := calc_right_whitespace src (znum n) in
+                  bs "ok " ++ dec sp ++ bs " " ++ dec st ++ bs " " ++ hexs (cut_right_whitespace src (znum n))
+      | _ => bs "error args" end
     else if list_eqb cmd (bs "hist") then cmd_hist a
     else if list_eqb cmd (bs "valid") then
       match a with [s] => bs "ok " ++ b01 (validate_link (arg_hex s)) | _ => bs "error args" end
